@@ -49,6 +49,26 @@ Qed.
 Lemma first_pn_undecodable_witness : decodePN 1 (-1) (truncatePN 1 300) = 44.
 Proof. vm_compute. reflexivity. Qed.
 
+(** a spec that dial accepts starts with a packet every receiver decodes *)
+Lemma validated_first_decodable scid dcid ipn lens single udpMin plans maxPacket :
+  0 <= ipn -> 0 <= single ->
+  validateSpec scid dcid ipn lens single udpMin plans maxPacket = true ->
+  let l := firstPnLen lens single ipn in
+  initialPN ipn = ipn /\ peekPnLen lens single (pnBase ipn) (initialPN ipn) = l /\ valid_len l /\
+  decodePN l (-1) (truncatePN l (initialPN ipn)) = initialPN ipn.
+Proof.
+  intros Hi Hs Hv l.
+  destruct (validateSpec_pn _ _ _ _ _ _ _ _ Hi Hv) as (Hpn & _ & Hpeek).
+  destruct (validateSpec_spec _ _ _ _ _ _ _ _ Hv) as (_ & _ & Hmax & Hfit & Hlens & Hsingle & _).
+  assert (Hvl : valid_len l).
+  { unfold l, firstPnLen. destruct lens as [|l0 lr].
+    - destruct (Z.eqb_spec single 0); cbn [negb]; [apply lenForHeader_valid|unfold valid_len; lia].
+    - inversion Hlens; subst. unfold valid_len. lia. }
+  split; [exact Hpn|]. split; [exact Hpeek|]. split; [exact Hvl|].
+  rewrite Hpn. apply first_pn_decodable_iff; [exact Hvl| unfold two62 in Hmax; lia |].
+  fold l in Hfit. replace (l * 8) with (8 * l) by lia. exact Hfit.
+Qed.
+
 Section Decrypt.
   Variable aead_seal : Z -> Z -> list Z -> list Z -> list Z.
   Variable aead_open : Z -> Z -> list Z -> list Z -> option (list Z).
@@ -99,31 +119,46 @@ Definition wcfg (bk : bkind) (lens : list Z) (single : Z) (plans : list (Z * Z))
   {| c_dcid := 8; c_scid := 0; c_ipn := 1; c_lens := lens; c_single := single; c_tokLen := 0;
      c_bk := bk; c_plans := plans; c_udpMin := udpMin; c_maxSize := 1280 |}.
 
-(** nil builder, InitialPackets = [{999,1200},{0,1250}]: initialDatagramIdx never advances, the
-    second datagram is cut and sized by entry 0 again (701 of the remaining 701 bytes, 1200 bytes) *)
-Lemma plan_index_witness :
+(** regression (was: every datagram followed entry 0 unless the builder was a
+    QUICFrameBuilderEx): nil builder, InitialPackets = [{999,1200},{0,1250}] -- the second
+    datagram is sized by entry 1 *)
+Lemma plan_index_regression :
   flight (wcfg BPass [] 1 [(999, 1200); (0, 1250)] 0) 1700 [] =
-  [DG 1 1 19 [(0, 999)] 1182 1200 1200 0 false; DG 2 1 19 [(999, 701)] 1182 1200 1200 0 false].
-Proof. vm_compute. reflexivity. Qed.
-
-(** the same spec with a QUICFrameBuilderEx that re-emits the frames: entry 1 governs datagram 1 *)
-Lemma plan_index_ex :
-  flight (wcfg BEx [] 1 [(999, 1200); (0, 1250)] 0) 1700 [1003; 705] =
   [DG 1 1 19 [(0, 999)] 1182 1200 1200 1 false; DG 2 1 19 [(999, 701)] 1232 1250 1250 2 false].
 Proof. vm_compute. reflexivity. Qed.
 
-(** flight builder: the budget offered for datagram 1 is computed with packet 0's header; a
-    payload that fills it makes packet 1 (packet number 3 bytes longer) exceed PacketSize *)
-Lemma flight_budget_witness :
-  flightBudgets (wcfg BFlight [1; 4] 0 [(0, 1200); (0, 1200)] 0) 1700 = [1165; 1165] /\
-  flight (wcfg BFlight [1; 4] 0 [(0, 1200); (0, 1200)] 0) 1700 [1165; 1165] =
-  [DG 1 1 19 [] 1182 1200 1200 1 false; DG 2 4 22 [] 1185 1203 1203 2 false].
+Lemma plan_index_plain :
+  flight (wcfg BPlain [] 1 [(999, 1200); (0, 1250)] 0) 1700 [1003; 705] =
+  [DG 1 1 19 [(0, 999)] 1182 1200 1200 1 false; DG 2 1 19 [(999, 701)] 1232 1250 1250 2 false].
+Proof. vm_compute. reflexivity. Qed.
+
+(** regression (was: PacketSize alone did not limit the CRYPTO popped, the first packet was
+    1280 bytes): nil builder, PacketSize 1232, 1734-byte ClientHello *)
+Lemma packet_size_caps_regression :
+  flight (wcfg BPass [] 1 [(0, 1232)] 0) 1734 [] =
+  [DG 1 1 19 [(0, 1193)] 1214 1232 1232 1 false; DG 2 1 19 [(1193, 541)] 1214 1232 1232 2 false].
+Proof. vm_compute. reflexivity. Qed.
+
+(** regression (was: budgets [1165;1165], packet 1 = 1203 bytes): the budget of datagram 1
+    is computed with ITS packet-number length; the old payload is refused by the size rule *)
+Lemma flight_budget_regression :
+  flightBudgets (wcfg BFlight [1; 4] 0 [(0, 1200); (0, 1200)] 0) 1700 = [1165; 1162] /\
+  flight (wcfg BFlight [1; 4] 0 [(0, 1200); (0, 1200)] 0) 1700 [1165; 1162] =
+  [DG 1 1 19 [] 1182 1200 1200 1 false; DG 2 4 22 [] 1182 1200 1200 2 false] /\
+  flight (wcfg BFlight [1; 4] 0 [(0, 1200); (0, 1200)] 0) 1700 [1165; 1165] = [DGErr 2].
+Proof. vm_compute. repeat split; reflexivity. Qed.
+
+(** regression (was: 1195 bytes popped, frames up to 1253 bytes, datagram up to 1288): Chrome_146's
+    QUICRandomFrames{Length 1215, <= 3 PING, <= 13 CRYPTO, MinPADDING 2} gets 1145 bytes per
+    datagram, which every draw re-frames within 1213 bytes; with payloads of exactly Length the
+    datagrams are 1250 and 1251 bytes *)
+Lemma random_reserve_regression :
+  maxCryptoData (1215, 2, 3, 13) 0 = 1145 /\
+  flight (wcfg (BRandom [(1215, 2, 3, 13)]) [1; 2] 0 [] 0) 1734 [1215; 1215] =
+  [DG 1 1 19 [(0, 1145)] 1232 1250 1250 1 false; DG 2 2 20 [(1145, 589)] 1233 1251 1251 2 false].
 Proof. vm_compute. split; reflexivity. Qed.
 
-(** Chrome_146's shape: QUICRandomFrames{Length 1215} keeps a 16-byte reserve; a builder draw
-    that needs more framing than that (here 1244 bytes of frames) overshoots Length, and with
-    enough frames the datagram passes the connection's maximum packet size (1280) *)
-Lemma random_overshoot_witness :
-  flight (wcfg (BRandom 1215 2) [1; 2] 0 [] 0) 1734 [1253; 1216] =
-  [DG 1 1 19 [(0, 1195)] 1270 1288 1288 1 false; DG 2 2 20 [(1195, 539)] 1234 1252 1252 2 false].
+(** still open: a builder whose output does not fit is not refused *)
+Lemma builder_overshoot_witness :
+  flight (wcfg BEx [] 1 [] 0) 1241 [1300] = [DG 1 1 19 [(0, 1241)] 1317 1335 1335 1 false].
 Proof. vm_compute. reflexivity. Qed.
